@@ -24,6 +24,7 @@ import (
 	"verif/harness/bridge"
 	"verif/harness/chain"
 	"verif/harness/evid"
+	"verif/harness/project"
 )
 
 const c01Chain = "eth-main"
@@ -486,6 +487,40 @@ func TestC01_BridgeConservation(t *testing.T) {
 				}
 				log = append(log, fmt.Sprintf("depositClaim(n=%d,%d,recv=%.10s,%d/%d votes)", skyNonce, amt, recv, okc, n))
 				check(t, "depositClaim")
+			},
+			"housekeepingOp": func(t *rapid.T) {
+				// the two operations the end-blocker starts on its own, called the way it calls them (directly on the
+				// block context), with a collaborator failure armed: if the operation reports failure nothing may change
+				tk := toks[rapid.IntRange(0, len(toks)-1).Draw(t, "token")]
+				contract, err := skywaytypes.NewEthAddress(tk.erc20)
+				if err != nil {
+					t.Fatalf("addr: %v", err)
+				}
+				site := rapid.SampledFrom(bridge.Sites).Draw(t, "site")
+				b.Arm(site, rapid.IntRange(1, 2).Draw(t, "kth"))
+				b.ResetFired()
+				before := project.All(c, []string{"skyway", "bank"})
+				var opErr error
+				what := "build"
+				batches, _ := k.GetOutgoingTxBatches(b.Ctx())
+				if len(batches) > 0 && rapid.Bool().Draw(t, "cancel") {
+					bt := batches[rapid.IntRange(0, len(batches)-1).Draw(t, "batch")]
+					what = fmt.Sprintf("cancel(batch %d)", bt.BatchNonce)
+					opErr = k.CancelOutgoingTXBatch(b.Ctx(), bt.TokenContract, bt.BatchNonce)
+				} else {
+					_, opErr = k.BuildOutgoingTXBatch(b.Ctx(), c01Chain, *contract, 100)
+				}
+				b.Disarm()
+				log = append(log, fmt.Sprintf("%s with fault at %s -> err=%v fired=%v", what, site, opErr != nil, b.Fired))
+				if opErr != nil {
+					if d := project.Diff(before, project.All(c, []string{"skyway", "bank"})); len(d) > 0 {
+						t.Fatalf("%s reported failure (%v) but changed state:%s\nhistory: %v", what, opErr, project.Short(d, 6), log)
+					}
+					if len(b.Fired) > 0 && pendingCount() > 0 {
+						faultInEndBlockWithPending = true
+					}
+				}
+				check(t, what)
 			},
 			"armFault": func(t *rapid.T) {
 				site := rapid.SampledFrom(bridge.Sites).Draw(t, "site")
